@@ -61,6 +61,8 @@ def gen_scenario(rng, big=False):
     ess = [rng.randint(0, nes) for _ in range(npart)]
     toks = [[] for _ in range(npart)]
     lines = ["SEED %d" % rng.randint(1, 10**9), "NES %d" % nes, "WATCHDOG 10", "GATE %d" % npart]
+    if nes >= 2 and rng.random() < 0.3:
+        lines.insert(2, "SHARED 1")   # the secondary streams serve one shared pool: blocked ULTs resume on other streams
     n_cur = [None] * nb
     rounds_total = 0
     for ph in range(nphases):
@@ -79,18 +81,35 @@ def gen_scenario(rng, big=False):
                 lines.append("BARRIER %d %d" % (b, len(parts[b])))
                 n_cur[b] = len(parts[b])
         else:
-            for t in range(npart):
-                toks[t].append("G")
+            # either everybody meets at the gate first (all callers have returned), or the coordinator reinitialises
+            # right after its own last wait has returned, while slower callers of that completed round may still be on
+            # their way out of ABT_barrier_wait (no round is in progress: counter == 0)
+            pregate = rng.random() < 0.5
+            if pregate:
+                for t in range(npart):
+                    toks[t].append("G")
             for b in range(nb):
                 r = rng.random()
+                rt = []
                 if r < 0.15:
-                    toks[0].append("R%d:0" % b)                # ABT_ERR_INV_ARG, nothing changes
+                    rt.append("R%d:0" % b)                     # ABT_ERR_INV_ARG, nothing changes
                 # always reinit at a phase change (possibly with the same n: no store then); the
                 # harness' per-round arrival counters are indexed by (phase, k-th wait of the caller)
-                toks[0].append("R%d:%d" % (b, len(parts[b])))
+                rt.append("R%d:%d" % (b, len(parts[b])))
+                if pregate:
+                    toks[0] += rt
+                else:
+                    # the last arrival of the barrier's last round reinitialises it right after its own wait has
+                    # returned: the round is complete (counter == 0, its critical section is over) but the callers
+                    # it has just released may still be leaving ABT_barrier_wait
+                    who = rng.choice(prev_parts[b])
+                    at = max(i for i, x in enumerate(toks[who]) if x == "W%d" % b)
+                    toks[who][at] = "L%d" % b     # it makes itself the last arrival of that round (see harness)
+                    toks[who][at + 1:at + 1] = rt
                 n_cur[b] = len(parts[b])
             for t in range(npart):
                 toks[t].append("G")
+        prev_parts = parts
         left = max(1, (budget - rounds_total) // (nphases - ph))
         seq = []
         for b in range(nb):
